@@ -330,6 +330,7 @@ func FuzzC02(f *testing.F) {
 	f.Fuzz(func(t *testing.T, data []byte) {
 		frame := sanitizeInterior(append([]byte(nil), data...))
 		if res := checkC02Frame(frame, "fuzz"); res.Err != nil {
+			kit.FuzzReport("TestC02", c02Case{Frame: frame, Origin: "fuzz"}, res.Err)
 			t.Fatalf("%v", res.Err)
 		}
 	})
